@@ -110,17 +110,17 @@ def run(tier: str, seed: int) -> int:
             for (op, _org), ns in by_site.items():
                 if op in ("open", "invalidate_cache"):
                     continue
-                for k in (ns if len(ns) <= 8 else ns[:4] + ns[-4:]):
+                for k in (ns if len(ns) <= 4 else ns[:2] + ns[-2:]):
                     for kindf in ("OSError", "FileNotFoundError"):
                         if {k: kindf} not in plans:
                             plans.append({k: kindf})
         for k in ls_calls:
             for variant in ("stale:first", "stale:last", "stale:ghost") if quick else ("stale:first", "stale:last", "stale:mid", "stale:all", "stale:tail2", "stale:ghost"):
                 plans.append({k: variant})
-        for _ in range(15 if quick else 150):                           # pairs
+        for _ in range(10 if quick else 150):                           # pairs
             a, b = sorted(rng.sample(range(1, K + 1), 2))
             plans.append({a: rng.choice(["OSError", "FileNotFoundError"]), b: rng.choice(["OSError", "FileNotFoundError"])})
-        for _ in range(10 if quick else 60):                            # repetition on one wrapper up to / beyond the retry limit
+        for _ in range(8 if quick else 60):                             # repetition on one wrapper up to / beyond the retry limit
             k0 = rng.randrange(1, K + 1)
             reps = rng.choice([2, 3, 3])
             origin = ref.events[[e["n"] for e in ref.events].index(k0)]["origin"] if k0 in [e["n"] for e in ref.events] else None
